@@ -650,7 +650,9 @@ Init ==
   /\ memo = [n \in Nodes |-> NoFacts]
   /\ facts = AllFacts(St)
 
-P(S) == IF SimK = 0 \/ S = {} THEN S ELSE RandomSubset(PMin(SimK, Cardinality(S)), S)
+\* NOTE: TLC evaluates constant-level expressions once per run; mentioning a variable keeps RandomSubset from being
+\* folded into one fixed choice for the whole simulation when S is a constant set (BOOLEAN, Keys, slice bounds ...)
+P(S) == IF SimK = 0 \/ S = {} THEN S ELSE RandomSubset(PMin(SimK, Cardinality(S)), IF act = <<>> THEN {} ELSE S)
 \* value descriptors: in simulation, nodes the user still holds after they were removed from a tree (detached roots other
 \* than the initial ones) are offered in addition, so that remove-then-reinsert histories are not left to chance
 Reusable == {m \in Nodes : kind[m] # "free" /\ parent[m] = NULL /\ m > Len(InitKinds)}
